@@ -455,6 +455,16 @@ def op_directed(_a):
                      "get_data_of_make_data_ncon": int(mjx.get_data(mm, a).ncon),
                      "get_data_of_put_data_fresh_ncon": int(mjx.get_data(mm, mjx.put_data(mm, mujoco.MjData(mm))).ncon)}
     out["tendon-zero-entry"] = directed_tendon()
+    # a weld on a body that can only translate: its three rotational rows have an all-zero Jacobian
+    xml = ("<mujoco><worldbody><body name='b' pos='0 0 1'><joint type='slide' axis='0 0 1'/><geom size='.1' contype='0' conaffinity='0'/></body>"
+           "</worldbody><equality><weld body1='b'/></equality></mujoco>")
+    mm = mujoco.MjModel.from_xml_string(xml)
+    d = mujoco.MjData(mm)
+    d.qpos[0] = 0.05
+    mujoco.mj_forward(mm, d)
+    d2 = mjx.get_data(mm, mjx.put_data(mm, d))
+    out["zero-jacobian-rows"] = {"xml": xml, "qpos": [0.05], "orig_nefc": int(d.nefc), "roundtrip_nefc": int(d2.nefc),
+                                 "orig_zero_rows": int(np.sum(~(dense_efc_J(mm, d) != 0).any(axis=1)))}
     return json.dumps(out)
 
 
